@@ -232,4 +232,29 @@ Fixpoint in_box (bnds : list (N * N)) (x : list N) : bool :=
   | _, _ => false
   end.
 
+(* ---------------------------------------------------------------- utilities/base_model.py: get_T_bnds(T, settings)
+   the temperature limits an OptimizedResult records for the days it was fitted on:
+     T_min = np.min(T), T_max = np.max(T),
+     T_min_seg = np.partition(T, n)[n], T_max_seg = np.partition(T, -n)[-n]      (n = settings.segment_minimum_count)
+   np.partition(T, k)[k] is the k-th order statistic: element k of the sorted array (index -n = len - n, and -0 = 0);
+   it raises ValueError when k is out of bounds (None).  Sorting by insertion with the instance's <=. *)
+Fixpoint insert_sorted (x : N) (l : list N) : list N :=
+  match l with
+  | [] => [x]
+  | y :: r => if x <=? y then x :: l else y :: insert_sorted x r
+  end.
+Definition sort_list (l : list N) : list N := fold_right insert_sorted [] l.
+
+Definition get_T_bnds (T : list N) (n_seg : nat) : option (tconstr N) :=
+  let s := sort_list T in
+  let len := length s in
+  match s with
+  | [] => None
+  | t0 :: _ =>
+      if Nat.ltb n_seg len then
+        let hi_idx := match n_seg with O => O | _ => (len - n_seg)%nat end in
+        Some (Build_tconstr N t0 (nth (len - 1) s t0) (nth n_seg s t0) (nth hi_idx s t0))
+      else None
+  end.
+
 End Refine.
